@@ -1,6 +1,7 @@
 // subject library for the C06 ownership runs: every object counts itself
 #pragma once
 #include <string>
+#include <vector>
 #include <cstdlib>
 struct Counters { int obj_live, other_live, ints_live, obj_made, other_made, ints_made, pool_in_use; };
 extern Counters counters;
@@ -27,3 +28,10 @@ int *libints(int n);
 const std::string name(const Obj &o);
 Obj *acquire(int v);          // a slot of the library's pool: must be given back with release_obj, never deleted
 void release_obj(Obj *p);
+// functions whose wrappers convert arguments through temporary buffers; g_room: how many characters append_suffix may add
+extern int g_room;
+void append_suffix(char *s);
+int count_tags(char **tags);
+void upcase(std::string &s);
+void fill_name(char *s);
+int sumvec(const std::vector<int> &v);
